@@ -95,12 +95,12 @@ def _wrap_scan():
             monitors_trace.judge_entry_point(a, "error", type(e).__name__)
             owner = getattr(HUB, "scan_crash_owner", None)
             try:
-                valid = owner and not a.get("_opaque") and not monitors_trace.entry_point_invalid_reasons(a) and os.path.isdir(str(a["root_path"])) and os.path.isdir(str(a["module_path"]))
+                valid = owner and not a.get("_opaque") and not monitors_trace.entry_point_invalid_reasons(a) and os.path.isdir(os.fspath(a["root_path"])) and os.path.isdir(os.fspath(a["module_path"]))
             except Exception:  # noqa: BLE001
                 valid = False
-            if valid:
+            if valid and not getattr(HUB, "scan_crash_expected", False):
                 try:
-                    rscan.model(os.path.normpath(str(a["root_path"])), os.path.normpath(str(a["module_path"])), a["_globs"], a["_regexes"])
+                    rscan.model(os.path.normpath(os.fspath(a["root_path"])), os.path.normpath(os.fspath(a["module_path"])), a["_globs"], a["_regexes"])
                 except (SyntaxError, ValueError) as e2:
                     # the reference scanner cannot read the tree either: the DRIVER wrote an illegal source file -
                     # that is a defect of the workload, never a verdict about the library
@@ -120,7 +120,7 @@ def _wrap_scan():
             # reads the tree NOW (absolute paths, so that a later chdir does not matter), the result stays untouched
             se.deferred = True
             try:
-                se.model = rscan.model(os.path.abspath(os.path.normpath(str(a["root_path"]))), os.path.abspath(os.path.normpath(str(a["module_path"]))), a["_globs"], a["_regexes"])
+                se.model = rscan.model(os.path.abspath(os.path.normpath(os.fspath(a["root_path"]))), os.path.abspath(os.path.normpath(os.fspath(a["module_path"]))), a["_globs"], a["_regexes"])
             except Exception as e:  # noqa: BLE001
                 HUB.acc.count("scan_model_errors")
                 HUB.acc.hist("scan_model_error", f"{type(e).__name__}: {e}"[:200])
@@ -183,7 +183,7 @@ def _wrap_scan():
 def _judge_scan(se: ScanEvent) -> None:
     a = se.args
     # '..' components are the caller's spelling of a directory; the reference walk starts from the directories meant
-    root, mp = os.path.normpath(str(a["root_path"])), os.path.normpath(str(a["module_path"]))
+    root, mp = os.path.normpath(os.fspath(a["root_path"])), os.path.normpath(os.fspath(a["module_path"]))
     m = rscan.model(root, mp, a["_globs"], a["_regexes"])
     se.model = m
     ex = rscan.expect(m, bool(a["exclude_external_libraries"]), a["level_limit"], a["_ext_globs"], a["_ext_regexes"])
